@@ -23,6 +23,8 @@ structure RouterCfg where
   cors : Cors := {}
   urlDomain : Bytes := []
   recover : Bool := false
+  /-- the `notFound` argument of `NewRouter` (`Group.New` passes the group's own) -/
+  notFoundBase : Base := .notFound
   deriving Repr, Inhabited
 
 /-- `options.sanitize` on the URL domain: one trailing `/` is removed. -/
@@ -35,7 +37,7 @@ def sanitizeDomain (d : Bytes) : Bytes :=
 def Router.new (cfg : RouterCfg) : Option Router :=
   if cfg.name = [] then none
   else some {
-    tree := Tree.new cfg.name cfg.ic { base := .notFound } (if cfg.trace then some { base := .trace } else none),
+    tree := Tree.new cfg.name cfg.ic { base := cfg.notFoundBase } (if cfg.trace then some { base := .trace } else none),
     cors := cfg.cors, urlDomain := sanitizeDomain cfg.urlDomain, recover := cfg.recover }
 
 /-- `Router.Handle`: `tree.Add(pattern, h, slices.Concat(m, r.ms), methods...)`. -/
